@@ -66,8 +66,8 @@ impl Tree {
 /// carries its parent's name). Then every shape with 4 modules and depth <= 2
 /// (three children; two children and a grandchild; a child with two
 /// grandchildren) and the labellings where a grandchild carries the name of
-/// its parent, of its uncle, or of a child of `pkg`.
-pub const TREE_PATHS: [&[&str]; 11] = [
+/// its uncle (`a.b` next to `b`, `b.a` next to `a`).
+pub const TREE_PATHS: [&[&str]; 10] = [
     &[],
     &["a"],
     &["a", "b"],
@@ -77,7 +77,6 @@ pub const TREE_PATHS: [&[&str]; 11] = [
     &["a", "b", "a.c"],
     &["a", "a.c", "a.d"],
     &["a", "b", "a.b"],
-    &["a", "b", "a.a"],
     &["a", "b", "b.a"],
 ];
 pub const QUICK_TREES: usize = 5;
